@@ -565,4 +565,9 @@ def run(ctx, prog):
         shape = bool(re.match(r'^Option::unwrap_or\(Option::map\(Option::and_then\(.*\), closure:[^)]*\), 0\)$', so))
         ctx.inst('C13.R9', lv.short, 'the scan skips up to the named snapshot found by equality; a missing named file skips nothing', bool(sk) and shape and eq_ok,
                  'skip_count = %s … ; position() predicate is an equality with the named number: %s' % (so[:60], eq_ok))
+    # ------------------------------------------------------------------ R10 = C01.R16 a removed MANIFEST is not a fresh directory
+    ctx.rule('C13.R10', 'a removed MANIFEST (= C01.R16, shared function): the server\'s start-up scan of a MANIFEST-less data directory recognises both file families the '
+                        'engine writes (snapshot_*.snap, wal_*.wal), so the directory is refused instead of being started empty; only a header-only log segment is exempt')
+    from rules import C01 as _c01
+    _c01.orphan_scan(ctx, prog, 'C13.R10')
     ctx.stat('functions_analysed', len(set(i['key'].split(' | ')[1] for i in ctx.instances)))
